@@ -662,6 +662,9 @@ func oracleIndex(in, outp string) {
 			}()
 			push = s.run(o)
 		}()
+		if o.kind == "upd" {
+			stats["push-type-"+push]++
+		}
 		// the oracle's own record of what the registries said
 		switch o.kind {
 		case "upd":
